@@ -222,8 +222,79 @@ pub fn main(args: &[String], which: &str) {
         }
     }
     if which == "c10" { ignore_family(&mut rep); include_line_family(&mut rep); }
+    if which == "c03" { aligned_include_family(&mut rep); }
     rep.write(out);
     println!("ok");
+}
+
+/// C03 family "source offsets that run on across a file boundary": macro-free texts with one or two `include directives where the included
+/// file's length is (near) the offset at which the directive ends, or where two included files are as long as each other's offsets, so that
+/// the source ranges of consecutive origin segments are numerically adjacent although they lie in different files. Every output byte is a
+/// copy, so the property is checked directly: origin(pos) = (file, off) must name a file whose byte at `off` is the output byte, and the file
+/// must be the one the byte's marker letter belongs to. (cwd = the materialised root)
+fn aligned_include_family(rep: &mut Report) {
+    let dir = "alignfam";
+    let mut k = 0usize;
+    for delta in [-3i64, -1, 0, 1, 2] {
+        for pre in ["", "ttt;\n", "/* t */\n"] {
+            for tail in ["\nttt tt;\n", " // t\nt;\n", "\n\n  t\n"] {
+                for second in [false, true] {
+                    let d = format!("{}/a{}", dir, k); k += 1;
+                    std::fs::create_dir_all(&d).unwrap();
+                    let hname = format!("{}/h.svh", d);
+                    let inc1 = format!("`include \"{}\"", hname);
+                    let e = (pre.len() + inc1.len()) as i64 + delta;
+                    if e < 6 { continue; }
+                    // header made of the marker letter 'h', exactly e bytes long
+                    let h = format!("{};\n", "h".repeat(e as usize - 2));
+                    std::fs::write(&hname, &h).unwrap();
+                    let mut top = format!("{}{}{}", pre, inc1, tail);
+                    let mut files = vec![(hname.clone(), h.clone())];
+                    if second {
+                        let gname = format!("{}/g.svh", d);
+                        let inc2 = format!("`include \"{}\"", gname);
+                        // second header as long as the offset at which ITS directive ends in the top file
+                        let e2 = top.len() + inc2.len();
+                        let g = format!("{};\n", "g".repeat(e2 - 2));
+                        std::fs::write(&gname, &g).unwrap();
+                        top.push_str(&inc2); top.push_str("\nt t;\n");
+                        files.push((gname, g));
+                    }
+                    let tname = format!("{}/top.sv", d);
+                    std::fs::write(&tname, &top).unwrap();
+                    files.push((tname.clone(), top.clone()));
+                    let desc = files.iter().map(|f| format!("--- {} ({} bytes)\n{}\n", f.0, f.1.len(), f.1)).collect::<String>();
+                    rep.case(desc.as_bytes(), true); rep.count("aligned-include-family");
+                    let r = std::panic::catch_unwind(|| preprocess(PathBuf::from(&tname), &crate::api::no_defines(), &crate::api::no_includes(), false, false));
+                    match r {
+                        Err(p) => rep.violation(&format!("panic: {}", util::panic_msg(p)), &desc, ""),
+                        Ok(Err(e)) => rep.violation(&format!("macro-free text with existing include files is rejected: {}", crate::api::err_str(&e)), &desc, ""),
+                        Ok(Ok((t, _))) => {
+                            let out = t.text().as_bytes();
+                            for pos in 0..out.len() {
+                                let b = out[pos];
+                                match t.origin(pos) {
+                                    None => { rep.violation(&format!("output byte {} ({:?}) of a macro-free text has no origin", pos, b as char), &desc, t.text()); break; }
+                                    Some((p, off)) => {
+                                        let ps = p.display().to_string();
+                                        match files.iter().find(|f| f.0 == ps) {
+                                            None => { rep.violation(&format!("origin({}) names {} which is none of the files of the case", pos, ps), &desc, t.text()); break; }
+                                            Some(f) => {
+                                                let fb = f.1.as_bytes();
+                                                if off >= fb.len() || fb[off] != b { rep.violation(&format!("origin({}) = ({}, {}) but output byte {:?} is not the byte of that file at that offset ({})", pos, ps, off, b as char, if off >= fb.len() { "past its end".to_string() } else { format!("{:?}", fb[off] as char) }), &desc, t.text()); break; }
+                                                let marker = if ps.ends_with("h.svh") { b'h' } else if ps.ends_with("g.svh") { b'g' } else { b't' };
+                                                if (b == b'h' || b == b'g' || b == b't') && b != marker { rep.violation(&format!("origin({}) names {} for a byte {:?} that was copied from another file", pos, ps, b as char), &desc, t.text()); break; }
+                                            }
+                                        }
+                                    }
+                                }
+                            }
+                        }
+                    }
+                }
+            }
+        }
+    }
 }
 
 /// C10 family: an `include that reaches the walker through a macro expansion (0..3 levels of macros, both quoting styles, file present or
